@@ -240,6 +240,21 @@ func (it *Interp) fingerprint(s *State, to *ssa.BasicBlock) uint64 {
 		}
 	}
 	fmt.Fprintf(&sb, "opq%v|", hasOpq)
+	// paths with different oracle histories are never merged: the composition
+	// rules judge the result against the whole history
+	for _, ev := range s.events {
+		fmt.Fprintf(&sb, "E%p@%s:", ev.Fn, ev.Pos)
+		for _, a := range ev.Args {
+			sb.WriteString(identString(a))
+			sb.WriteString(",")
+		}
+		sb.WriteString("->")
+		for _, o := range ev.Out {
+			c.val(o)
+			sb.WriteString(",")
+		}
+		sb.WriteString("|")
+	}
 	for fi, fr := range s.frames {
 		var live map[ssa.Value]bool
 		li := it.live(fr.fn)
@@ -292,4 +307,57 @@ func (it *Interp) fingerprint(s *State, to *ssa.BasicBlock) uint64 {
 	h := fnv.New64a()
 	h.Write([]byte(sb.String()))
 	return h.Sum64()
+}
+
+// identString names a value by the identities it carries (symbols of free
+// floats, heap cells of slices and pointers), not by its abstract content.
+func identString(v AV) string {
+	switch x := v.(type) {
+	case FloatV:
+		if x.Known {
+			return fmt.Sprintf("f%v", x.V)
+		}
+		return fmt.Sprintf("f#%d", x.Sym)
+	case IntV:
+		if x.Known {
+			return fmt.Sprintf("i%d", x.V)
+		}
+		return fmt.Sprintf("i#%d*%d+%d", x.Sym, x.A, x.B)
+	case BoolV:
+		return fmt.Sprintf("b%v%v", x.T, x.F)
+	case ArrV:
+		var parts []string
+		for _, e := range x.Elems {
+			parts = append(parts, identString(e))
+		}
+		return "[" + strings.Join(parts, " ") + "]"
+	case StructV:
+		var parts []string
+		for _, e := range x.Fields {
+			parts = append(parts, identString(e))
+		}
+		return "{" + strings.Join(parts, " ") + "}"
+	case SliceV:
+		if x.Nil {
+			return "snil"
+		}
+		return fmt.Sprintf("s@%d[%d:%d]", x.Arr, x.Lo, x.Hi)
+	case PtrV:
+		if x.Nil {
+			return "pnil"
+		}
+		return fmt.Sprintf("p@%d%v", x.Cell, x.Path)
+	case IfaceV:
+		if x.Nil {
+			return "inil"
+		}
+		return "I(" + identString(x.Val) + ")"
+	case TupleV:
+		var parts []string
+		for _, e := range x.Vals {
+			parts = append(parts, identString(e))
+		}
+		return "(" + strings.Join(parts, " ") + ")"
+	}
+	return fmt.Sprintf("%T", v)
 }
